@@ -542,10 +542,10 @@ lib.OPAQUE_METHODS.update({
     "H5File": {"create_dataset": h5_create_dataset},
     "H5Dataset": {"resize": ds_resize},
 })
-lib.OPAQUE_GETITEM = {"DataFrame": df_getitem, "H5File": h5_getitem, "H5Dataset": ds_getitem}
-lib.OPAQUE_SETITEM = {"H5Dataset": ds_setitem}
-lib.OPAQUE_ATTRS = {"H5Dataset": {"shape": ds_shape}, "BitGenerator": {"state": bg_state_get}}
-lib.OPAQUE_SETATTR = {"BitGenerator": {"state": bg_state_set}}
+lib.OPAQUE_GETITEM.update({"DataFrame": df_getitem, "H5File": h5_getitem, "H5Dataset": ds_getitem})
+lib.OPAQUE_SETITEM.update({"H5Dataset": ds_setitem})
+lib.OPAQUE_ATTRS.update({"H5Dataset": {"shape": ds_shape}, "BitGenerator": {"state": bg_state_get}})
+lib.OPAQUE_SETATTR = dict(getattr(lib, "OPAQUE_SETATTR", {}), **{"BitGenerator": {"state": bg_state_set}})
 lib.BUILTIN_FUNCS.update({
     "disk_exists": c_disk_exists, "disk_json": c_disk_json, "disk_json_has": c_disk_json_has,
     "disk_pickle": c_disk_pickle, "disk_csv": c_disk_csv, "disk_csv_has": c_disk_csv_has, "disk_h5": c_disk_h5,
